@@ -175,7 +175,7 @@ fn apply(w: &mut World, op: Op) -> StepOut {
             }
         }
         Op::Remove(i) => {
-            w.map.remove_backend(CLUSTER, &addr(i));
+            w.map.remove_backend(CLUSTER, BACKENDS[i as usize].id, &addr(i));
             w.refs[i as usize] = RefB::default();
         }
         Op::HealthFail(i) => {
